@@ -8,10 +8,20 @@
 
 #include "axl.h"
 #include "opsys.h"
+#ifdef ALDOR_VERIF
+#include "verifhook.h"
+#endif
 
 int
 main(int argc, String *argv)
 {
 	osFixCmdLine(&argc, &argv);
+#ifdef ALDOR_VERIF
+	{
+		int rc = compCmd(argc, argv);
+		VERIF_EVENT(("{\"ev\":\"Exit\",\"status\":%d,\"via\":\"main\"}", rc));
+		return rc;
+	}
+#endif
 	return compCmd(argc, argv);
 }
